@@ -22,9 +22,10 @@ SRCS = c13.REPO_SRCS + ["smt/ov/ov_theory.cpp", "smt/arith/lra/lra_theory.cpp", 
 
 
 def build(tier):
-    flags, key = ["-O1"], "plain"
+    # PSTLAB_ORATIO_VERIF_ORDERED: the rows watching an LRA variable are visited in ascending order (the model's order)
+    flags, key = ["-O1", "-DPSTLAB_ORATIO_VERIF_ORDERED"], "plain-ord"
     if tier == "thorough":
-        flags, key = ["-O1", "-fsanitize=address,undefined", "-fno-sanitize-recover=all"], "san"
+        flags, key = ["-O1", "-DPSTLAB_ORATIO_VERIF_ORDERED", "-fsanitize=address,undefined", "-fno-sanitize-recover=all"], "san-ord"
     return vlib.build_harness("net", ["net.cpp"], SRCS, flags=flags, key=key)
 
 
